@@ -64,7 +64,7 @@ func TestVerifLabel(t *testing.T) {
 		}
 	}
 	alpha := []string{"a", "b", "/", ":", ".", "@"}
-	pkgs := []string{"//", "//a", "//a/b"}
+	pkgs := []string{"//", "//a", "//a/b", "//a//b", "//a/b/", "///a"}
 	try := func(s string) {
 		pj, l := parseJ(s)
 		ev := lj{"ev": "Parse", "s": s, "outcome": pj["outcome"], "l": pj["l"], "printed": "", "re": lj{"outcome": "none", "l": pj["l"]}}
